@@ -468,6 +468,24 @@ def check_errors():
             n_st = repr(e)[:200]
         obs.append(_closed(f"errors::constant-input[{label}]-is-never-driven", n_st == 0, {"statements added / exception": n_st, "form": label}))
 
+    # a port member whose shape is a shape-castable with a NON-ZERO default constant (a Struct class with declared field
+    # values) and no explicit init=: created objects start from that default, comply, and connect
+    class _Pixel(_data.Struct):
+        r: 4 = 5
+        g: 4 = 3
+    psig = Signature({"p": Out(_Pixel), "q": In(_Pixel).array(2)})
+    pobj = psig.create()
+    fobj = psig.flip().create()
+    from amaranth.hdl import Value as _Value
+    obs.append(_closed("errors::shape-castable-default::created-signals-start-from-the-default",
+                       _Value.cast(pobj.p).init == 0x35 and all(_Value.cast(x).init == 0x35 for x in pobj.q),
+                       {"init of the created signal": _Value.cast(pobj.p).init, "expected": 0x35}))
+    obs.append(_closed("errors::shape-castable-default::created-objects-comply", psig.is_compliant(pobj) and psig.flip().is_compliant(fobj),
+                       {"what": "Signature({'p': Out(Pixel)}).create() does not comply with its own signature (Pixel: Struct with r=5, g=3)"}))
+    case("shape-castable-default-connects", lambda m: connect(m, psig.create(), psig.flip().create()), False)
+    case("shape-castable-default-vs-explicit-equal-init", lambda m: connect(m, psig.create(), Signature({"p": In(_Pixel, init={"r": 5, "g": 3}), "q": Out(_Pixel).array(2)}).create()), False)
+    case("shape-castable-default-vs-zero-init", lambda m: connect(m, psig.create(), Signature({"p": In(_Pixel, init={"r": 0, "g": 0}), "q": Out(_Pixel).array(2)}).create()), True)
+
     def const_not_driven(m):
         connect(m, mk(csig_o, Const(2, 2)), mk(csig_i, Const(2, 2)), mk(csig_i, Signal(2, name="sink")))
     m = Module()
